@@ -59,7 +59,8 @@ Record st := mkSt {
   rlocked : bool;                  (* the repository is physically locked by somebody else *)
   knit : bool;                     (* format constant: knit-family repository (lock_write takes a physical
                                       lock, write groups are not transactional); false for pack formats *)
-  signed : list revid              (* revisions with a stored signature, sorted *)
+  signed : list revid;             (* revisions with a stored signature, sorted *)
+  mine : bool                      (* THIS client holds an outer write lock (Begin .. End) on its one object *)
 }.
 
 Inductive op :=
@@ -80,7 +81,9 @@ Inductive op :=
 | RevTree (r : revid)
 | GenHist (r : revid)
 | StaleLock                        (* environment: a branch lock left in place, the repository free *)
-| Sign (rs : list revid).          (* sign_revision for each of rs inside ONE write group *)
+| Sign (rs : list revid)
+| Begin                            (* this client takes an outer write lock and keeps it over the next operations *)
+| End.          (* sign_revision for each of rs inside ONE write group *)
 
 (* ---- sorted association lists -------------------------------------------- *)
 
@@ -114,19 +117,21 @@ Definition merge_have (g : dag) (h extra : list revid) : list revid :=
 
 Definition fetched (x : st) (s : revid) : st :=
   mkSt (g x) (merge_have (g x) (have x) (closure (g x) s)) (tip x) (revno x) (tags x) (conf x)
-       (locked x) (rlocked x) (knit x) (signed x).
+       (locked x) (rlocked x) (knit x) (signed x) (mine x).
 
 Definition set_tip (x : st) (t : revid) (n : nat) : st :=
-  mkSt (g x) (have x) (Some t) n (tags x) (conf x) (locked x) (rlocked x) (knit x) (signed x).
+  mkSt (g x) (have x) (Some t) n (tags x) (conf x) (locked x) (rlocked x) (knit x) (signed x) (mine x).
 
 Definition with_tags (x : st) (t : list (nat * nat)) : st :=
-  mkSt (g x) (have x) (tip x) (revno x) t (conf x) (locked x) (rlocked x) (knit x) (signed x).
+  mkSt (g x) (have x) (tip x) (revno x) t (conf x) (locked x) (rlocked x) (knit x) (signed x) (mine x).
 Definition with_conf (x : st) (c : list (nat * nat)) : st :=
-  mkSt (g x) (have x) (tip x) (revno x) (tags x) c (locked x) (rlocked x) (knit x) (signed x).
+  mkSt (g x) (have x) (tip x) (revno x) (tags x) c (locked x) (rlocked x) (knit x) (signed x) (mine x).
 Definition with_locks (x : st) (l rl : bool) : st :=
-  mkSt (g x) (have x) (tip x) (revno x) (tags x) (conf x) l rl (knit x) (signed x).
+  mkSt (g x) (have x) (tip x) (revno x) (tags x) (conf x) l rl (knit x) (signed x) (mine x).
+Definition with_mine (x : st) (m : bool) : st :=
+  mkSt (g x) (have x) (tip x) (revno x) (tags x) (conf x) (locked x) (rlocked x) (knit x) (signed x) m.
 Definition with_signed (x : st) (sg : list revid) : st :=
-  mkSt (g x) (have x) (tip x) (revno x) (tags x) (conf x) (locked x) (rlocked x) (knit x) sg.
+  mkSt (g x) (have x) (tip x) (revno x) (tags x) (conf x) (locked x) (rlocked x) (knit x) sg (mine x).
 
 (* the revisions of rs up to the first one that is not stored *)
 Fixpoint present_prefix (h rs : list revid) : list revid :=
@@ -144,7 +149,7 @@ Definition oassoc (l : list (nat * nat)) : obs := olist (fun p => OL [onat (fst 
 (* what is read back from disk after every operation *)
 Definition observe (x : st) : obs :=
   OL [onat (revno x); otip (tip x); oassoc (tags x); oassoc (conf x); olist onat (have x);
-      obool (locked x); obool (rlocked x); olist onat (signed x); OZ 0].
+      obool (locked x || mine x); obool (rlocked x || (mine x && knit x)); olist onat (signed x); OZ 0].
 
 Definition update_result (old new : st) : obs :=
   OL [onat (revno old); otip (tip old); onat (revno new); otip (tip new)].
@@ -241,7 +246,7 @@ Definition step (c : cfg) (x : st) (o : op) : obs * st :=
       then let new := length (g x) in
            (onat new,
             mkSt (g x ++ [match tip x with None => [] | Some t => [t] end]) (have x ++ [new])
-                 (Some new) (S (revno x)) (tags x) (conf x) (locked x) (rlocked x) (knit x) (signed x))
+                 (Some new) (S (revno x)) (tags x) (conf x) (locked x) (rlocked x) (knit x) (signed x) (mine x))
       else (OE "ModelIdCollision", x)     (* numbering artefact: the next index is used as a ghost id *)
   | SetTag t r => (ON, with_tags x (ains t r (tags x)))
   | DelTag t =>
@@ -250,8 +255,11 @@ Definition step (c : cfg) (x : st) (o : op) : obs * st :=
       | None => (OE "NoSuchTag", x)
       end
   | SetConf o' v _ => (ON, with_conf x (ains o' v (conf x)))
-  | Lock => (OT "ok", with_locks x true (knit x))      (* BzrBranch.lock_write locks the repository too *)
-  | StaleLock => (OT "ok", with_locks x true false)
+  | Lock => if mine x then (OE "LockContention", x)
+            else (OT "ok", with_locks x true (knit x))   (* BzrBranch.lock_write locks the repository too *)
+  | StaleLock => if mine x then (OE "LockContention", x) else (OT "ok", with_locks x true false)
+  | Begin => if locked x then (OE "LockContention", x) else (OT "ok", with_mine x true)
+  | End => if mine x then (OT "ok", with_mine x false) else (OT "not-open", x)
   | Sign rs =>
       (* Repository.lock_write / start_write_group / sign_revision* / commit_write_group.
          RPC write-group verbs on pack formats; knit-family repositories need VFS for it and do
@@ -305,9 +313,9 @@ Fixpoint final (c : cfg) (x : st) (ops : list op) : st :=
 
 Definition init_state (g0 : dag) (init : option revid) (kn : bool) : st :=
   match init with
-  | None => mkSt g0 [] None 0 [] [] false false kn []
+  | None => mkSt g0 [] None 0 [] [] false false kn [] false
   | Some t => mkSt g0 (merge_have g0 [] (closure g0 t)) (Some t)
-                   (match distance_to_null g0 t with Some n => n | None => 0 end) [] [] false false kn []
+                   (match distance_to_null g0 t with Some n => n | None => 0 end) [] [] false false kn [] false
   end.
 
 Definition cfg_local := mkCfg false true true.
